@@ -177,3 +177,32 @@ def render_program(key):
         return PRELUDE + render_def(*key["defs"][0], name="f") + POSTLUDE
     a, b = key["defs"]
     return PRELUDE + render_def(*a, name="f") + "\n\n# between\n" + render_def(*b, name="f" if key.get("same_name") else "g") + POSTLUDE
+
+
+# ---- file-level layout variants (applied to a rendered program) ---------------------------------------------------------------------
+LAYOUTS = ["lf", "crlf", "tabs", "no_trailing_newline", "single_quote_doc", "raw_doc", "semicolon_body"]
+
+
+def apply_layout(src, layout):
+    if layout == "lf":
+        return src
+    if layout == "crlf":
+        return src.replace("\n", "\r\n")
+    if layout == "tabs":
+        return src.replace("    ", "\t")
+    if layout == "no_trailing_newline":
+        return src.rstrip("\n")
+    if layout == "single_quote_doc":
+        return src.replace('"""', "'''")
+    if layout == "raw_doc":
+        return src.replace('"""', 'r"""', 1) if src.count('"""') >= 2 else src
+    if layout == "semicolon_body":
+        return src.replace("x = 1  # trailing comment", "x = 1; w = 2  # trailing comment").replace("pass\n", "pass; pass\n", 1)
+    raise ValueError(layout)
+
+
+ONE_LINERS = [
+    ("oneline_def_doc", 'def f(a, b): """Summary of it."""\n'),
+    ("oneline_def_pass", "def f(a, b): pass\n"),
+    ("oneline_class_doc", 'class K(object): """Summary of it."""\n'),
+]
